@@ -66,7 +66,8 @@ def gen_thread_op(rg, fresh, kind, c, readers=False, mut_only=True):
         return name, []
     n = len(c)
     if readers:
-        name = rg.choice(["getitem", "len", "iter", "call", "eq", "contains", "reversed", "count", "index"])
+        # (list.index is a multi-step mixin built on repeated __getitem__ and is not among the reads C14 lists)
+        name = rg.choice(["getitem", "len", "iter", "call", "eq", "contains", "reversed", "count"])
         if name == "getitem":
             return name, [rg.randrange(-n, n) if n else 0]
         if name == "eq":
